@@ -75,6 +75,21 @@ def rule_bookkeeping(ck):
         ck.ob("table.thread_events", f"PTRACE_EVENT_{nm}/add={adds}", (TC + "::add" in ns) == adds, f"calls: add={TC + '::add' in ns} remove={TC + '::remove' in ns}", f.loc(tg[code]))
         if removes is not None:
             ck.ob("table.thread_events", f"PTRACE_EVENT_{nm}/remove={removes}", (TC + "::remove" in ns) == removes, "", f.loc(tg[code]))
+    # exit event: the thread sits in its exit stop and has just been taken out of the registry, so nobody else will ever
+    # resume it: on every path where the registry knew it, it is continued before the arm is left
+    region = f.arm_region(bi, tg[6]) | {tg[6]}
+    rms = [f.call_at(b) for b in region if f.call_at(b) is not None and f.call_at(b).name == TC + "::remove"]
+    conts = {b for b in region if f.call_at(b) is not None and f.call_at(b).name in (TE + "::continue", TE + "::r#continue")}
+    osw = [(b2, t2) for b2, t2, pl2 in switches_on_type(f, "std::option::Option<debugger::debugee::tracee::Tracee>") if b2 in region]
+    ok = len(rms) == 1 and len(osw) == 1 and bool(conts)
+    d = f"{len(rms)} removals, {len(conts)} resumes"
+    if ok:
+        b2, t2 = osw[0]
+        some = [x for v, x in t2["arms"] if int(v) == 1] or [t2["otherwise"]]
+        esc = [x for x in f.reach_from([y for y in some if y not in conts], avoid=conts) if x not in region and not f.blocks[x]["cleanup"]]
+        ok = not esc
+        d += f"; leaves the arm without resuming via bb{sorted(esc)[:3]}" if esc else ""
+    ck.ob("table.thread_events", "PTRACE_EVENT_EXIT/removed-thread-is-resumed", ok, d, f.loc(tg[6]), what="a thread in its exit stop is dropped from the registry without being resumed: it stays a live kernel thread the debugger no longer knows, and joins on it never finish")
     # clone: the added tid is the one from PTRACE_GETEVENTMSG
     region = f.arm_region(bi, tg[3]) | {tg[3]}
     adds = [f.call_at(b) for b in region if f.call_at(b) is not None and f.call_at(b).name == TC + "::add"]
